@@ -8,13 +8,13 @@ from vf.models.greedy import greedy_outcomes
 from vf.spec import S, build, short
 from vf.zoo import sbs
 
-SHARDS = {"quick": 8, "thorough": 16}
+SHARDS = {"quick": 16, "thorough": 16}
 WATCHDOG = {"quick": 1800, "thorough": 10800}
 CASES = {"quick": 90, "thorough": 1200}
 FLOORS = {
-    "quick": {"distinct_nontrivial": 120, "table_rows_checked": 15000, "greedy_compared": 300,
-              "cases[max_interval_length==2*msl]": 40, "cases[n==2*msl]": 10, "tie_branches_explored": 20,
-              "threshold_pairs": 250},
+    "quick": {"distinct_nontrivial": 320, "table_rows_checked": 61000, "greedy_compared": 490,
+              "cases[max_interval_length==2*msl]": 140, "cases[n==2*msl]": 41, "tie_branches_explored": 20,
+              "threshold_pairs": 450},
     "thorough": {"distinct_nontrivial": 2500, "table_rows_checked": 300000},
 }
 ANCHORS = [
